@@ -11,7 +11,7 @@ use std::{
     time::{Duration, Instant},
 };
 
-use crate::peers::{self, IoProgram};
+use crate::peers::{self, IoProgram, tls::{self, TlsClient}};
 
 /// what a probe connection saw
 #[derive(Clone, Debug, PartialEq, Eq)]
@@ -26,6 +26,8 @@ pub enum Probe {
     Http { status: u16, body: String, complete: bool },
     /// bytes that are not an HTTP response
     Bytes(usize),
+    /// TCP connected but the TLS handshake failed with an error (not a timeout)
+    TlsFailed(String),
 }
 
 impl Probe {
@@ -38,6 +40,7 @@ impl Probe {
                 format!("http {status} body={body:?}{}", if *complete { "" } else { " (incomplete)" })
             }
             Probe::Bytes(n) => format!("{n} non-http bytes"),
+            Probe::TlsFailed(e) => format!("tls handshake failed: {e}"),
         }
     }
     pub fn class(&self) -> String {
@@ -47,6 +50,7 @@ impl Probe {
             Probe::Closed => "closed".into(),
             Probe::Http { status, .. } => format!("{status}"),
             Probe::Bytes(_) => "bytes".into(),
+            Probe::TlsFailed(_) => "tls_failed".into(),
         }
     }
 }
@@ -59,8 +63,25 @@ fn find(hay: &[u8], needle: &[u8]) -> Option<usize> {
     hay.windows(needle.len()).position(|w| w == needle)
 }
 
+/// a byte stream whose read timeout can be set
+pub trait TimedRead: Read {
+    fn set_wait(&mut self, d: Duration);
+}
+
+impl TimedRead for TcpStream {
+    fn set_wait(&mut self, d: Duration) {
+        let _ = self.set_read_timeout(Some(d.max(Duration::from_millis(1))));
+    }
+}
+
+impl TimedRead for TlsClient {
+    fn set_wait(&mut self, d: Duration) {
+        self.set_timeouts(d, Duration::from_secs(2));
+    }
+}
+
 /// read one HTTP response (Content-Length framed or until close) within `wait`
-pub fn read_response(stream: &mut TcpStream, wait: Duration) -> Probe {
+pub fn read_response<S: TimedRead>(stream: &mut S, wait: Duration) -> Probe {
     let deadline = Instant::now() + wait;
     let mut buf: Vec<u8> = Vec::new();
     let mut tmp = [0u8; 4096];
@@ -88,7 +109,7 @@ pub fn read_response(stream: &mut TcpStream, wait: Duration) -> Probe {
         } else {
             left
         };
-        let _ = stream.set_read_timeout(Some(slice.max(Duration::from_millis(1))));
+        stream.set_wait(slice);
         match stream.read(&mut tmp) {
             Ok(0) => eof = true,
             Ok(n) => {
@@ -150,6 +171,42 @@ pub fn http_probe(addr: SocketAddr, host: &str, path: &str, wait: Duration) -> P
     read_response(&mut s, wait)
 }
 
+/// connect, TLS handshake with `host` as SNI (any certificate accepted), one GET over HTTP/1.1
+pub fn https_probe(addr: SocketAddr, host: &str, path: &str, wait: Duration) -> Probe {
+    let s = match can_connect(addr) {
+        Ok(s) => s,
+        Err(e) => return Probe::Refused(e),
+    };
+    let (mut t, _info) = match TlsClient::handshake(s, host, tls::client_config(&["http/1.1"]), wait) {
+        Ok(x) => x,
+        Err(e) => {
+            return match e.kind() {
+                std::io::ErrorKind::WouldBlock | std::io::ErrorKind::TimedOut => Probe::Silent,
+                std::io::ErrorKind::UnexpectedEof | std::io::ErrorKind::ConnectionReset | std::io::ErrorKind::BrokenPipe => Probe::Closed,
+                _ => Probe::TlsFailed(format!("{e}")),
+            };
+        }
+    };
+    let req = format!("GET {path} HTTP/1.1\r\nHost: {host}\r\nConnection: close\r\n\r\n");
+    if t.write_all(req.as_bytes()).is_err() {
+        return Probe::Closed;
+    }
+    read_response(&mut t, wait)
+}
+
+/// one datagram to `addr`, the reply (if any) within `wait`
+pub fn udp_probe(addr: SocketAddr, wait: Duration) -> Option<String> {
+    let sock = std::net::UdpSocket::bind(SocketAddr::new(addr.ip(), 0)).ok()?;
+    sock.connect(addr).ok()?;
+    let _ = sock.set_read_timeout(Some(wait.max(Duration::from_millis(1))));
+    sock.send(b"c08-probe").ok()?;
+    let mut buf = [0u8; 256];
+    match sock.recv(&mut buf) {
+        Ok(n) => Some(String::from_utf8_lossy(&buf[..n]).into_owned()),
+        Err(_) => None,
+    }
+}
+
 /// backends answer every request with 200 and the body `B<port>`; a target containing "slow"
 /// is answered after `SLOW_MS`
 pub const SLOW_MS: u64 = 700;
@@ -164,10 +221,13 @@ pub struct TagBackend {
 impl TagBackend {
     pub fn stop(&mut self) {
         self.stop.store(true, Ordering::SeqCst);
-        // wake the accept() up
-        let _ = TcpStream::connect_timeout(&self.addr, Duration::from_millis(500));
+        // wake the accept() up; when that fails (no descriptor left) the thread is left behind
+        // rather than joined forever
+        let woken = TcpStream::connect_timeout(&self.addr, Duration::from_millis(1000)).is_ok();
         if let Some(t) = self.thread.take() {
-            let _ = t.join();
+            if woken {
+                let _ = t.join();
+            }
         }
     }
 }
@@ -180,6 +240,9 @@ impl Drop for TagBackend {
 
 pub struct Backends {
     pub servers: Vec<TagBackend>,
+    /// UDP twins on the same ports: answer every datagram with `U<port>`
+    udp_stop: Arc<AtomicBool>,
+    udp_threads: Vec<JoinHandle<()>>,
     pub slow_seen: Arc<AtomicU64>,
     pub requests: Arc<AtomicU64>,
 }
@@ -250,7 +313,36 @@ pub fn start_backends(addrs: &[SocketAddr]) -> Result<Backends, String> {
             .map_err(|e| format!("{e}"))?;
         servers.push(TagBackend { addr: *addr, stop, thread: Some(thread) });
     }
-    Ok(Backends { servers, slow_seen, requests })
+    let udp_stop = Arc::new(AtomicBool::new(false));
+    let mut udp_threads = Vec::new();
+    for addr in addrs {
+        let sock = std::net::UdpSocket::bind(addr).map_err(|e| format!("udp backend {addr}: {e}"))?;
+        let _ = sock.set_read_timeout(Some(Duration::from_millis(100)));
+        let (st, port) = (udp_stop.clone(), addr.port());
+        if let Ok(t) = std::thread::Builder::new().name(format!("c08-udp-backend-{port}")).spawn(move || {
+            let mut buf = [0u8; 2048];
+            while !st.load(Ordering::SeqCst) {
+                if let Ok((_, from)) = sock.recv_from(&mut buf) {
+                    let _ = sock.send_to(format!("U{port}").as_bytes(), from);
+                }
+            }
+        }) {
+            udp_threads.push(t);
+        }
+    }
+    Ok(Backends { servers, slow_seen, requests, udp_stop, udp_threads })
+}
+
+impl Backends {
+    pub fn stop(&mut self) {
+        for s in self.servers.iter_mut() {
+            s.stop();
+        }
+        self.udp_stop.store(true, Ordering::SeqCst);
+        for t in self.udp_threads.drain(..) {
+            let _ = t.join();
+        }
+    }
 }
 
 /// background HTTP clients hitting the given addresses until stopped
